@@ -199,6 +199,50 @@ Proof.
         -- apply (phase_ok_step c e); rewrite Hc; [reflexivity|]. cbn [fst]. apply IH.
 Qed.
 
+(* the stateful phases of final-blocks-only (Model/Joining.chain_fin): the fed sequence is what the filter hands to the
+   rest of the chain or refuses; the repeats it drops are left out *)
+Lemma live_phase_fin_ok c : forall fuel w lf queue count ps out,
+  phase_ok c out (live_phase_fin fuel c w lf queue count ps out) False.
+Proof.
+  induction fuel as [|f IH]; intros w lf queue count ps out; cbn [live_phase_fin].
+  - apply phase_ok_nil. discriminate.
+  - destruct queue as [|e q].
+    + destruct (w_rest w) eqn:Hr; [apply phase_ok_nil; discriminate|].
+      destruct (push_one c w) as [w' evs]. apply IH.
+    + unfold chain_fin. destruct (filter_pass c (estep e)); [|apply IH].
+      destruct (match lf with Some n => bnum (eblk e) <=? n | None => false end); [apply IH|].
+      destruct (chain c e) as [deliver stop] eqn:Hc.
+      destruct deliver.
+      * destruct (apply_pauses c (count + 1) ps w) as [[ps' w'] evs].
+        destruct stop.
+        -- pose proof (phase_ok_stop c e out False) as H. rewrite Hc in H. apply H. reflexivity.
+        -- apply (phase_ok_step c e); rewrite Hc; [reflexivity|]. cbn [fst]. apply IH.
+      * destruct stop.
+        -- pose proof (phase_ok_stop c e out False) as H. rewrite Hc in H. apply H. reflexivity.
+        -- apply (phase_ok_step c e); rewrite Hc; [reflexivity|]. cbn [fst]. apply IH.
+Qed.
+
+Lemma file_phase_fin_ok c fuel fend : forall fevs w lf lowest count ps out,
+  phase_ok c out (file_phase_fin fuel c w lf lowest fevs fend count ps out) (fend = JStop).
+Proof.
+  induction fevs as [|e rest IH]; intros w lf lowest count ps out; cbn [file_phase_fin].
+  - apply phase_ok_nil. auto.
+  - cbv zeta.
+    match goal with |- phase_ok _ _ (match ?X with Some _ => _ | None => _ end) _ => destruct X as [burst|] end.
+    + eapply phase_ok_weaken; [|apply live_phase_fin_ok]. intros [].
+    + unfold chain_fin. destruct (filter_pass c (estep e)); [|apply IH].
+      destruct (match lf with Some n => bnum (eblk e) <=? n | None => false end); [apply IH|].
+      destruct (chain c e) as [deliver stop] eqn:Hc.
+      destruct deliver.
+      * destruct (apply_pauses c (count + 1) ps w) as [[ps' w'] evs].
+        destruct stop.
+        -- pose proof (phase_ok_stop c e out (fend = JStop)) as H. rewrite Hc in H. apply H. reflexivity.
+        -- apply (phase_ok_step c e); rewrite Hc; [reflexivity|]. cbn [fst]. apply IH.
+      * destruct stop.
+        -- pose proof (phase_ok_stop c e out (fend = JStop)) as H. rewrite Hc in H. apply H. reflexivity.
+        -- apply (phase_ok_step c e); rewrite Hc; [reflexivity|]. cbn [fst]. apply IH.
+Qed.
+
 (* ---------------------------------------------------------------- Stream.Run *)
 
 Definition marker (c : jcfg) (merged_end : N) : Prop :=
@@ -213,9 +257,13 @@ Proof.
   match goal with |- phase_ok _ _ (if ?X then _ else _) _ => destruct X end;
     [apply phase_ok_nil; discriminate|].
   destruct (live_try c (w_hub w) _) as [burst| | |].
-  - eapply phase_ok_weaken; [|apply live_phase_ok]. intros [].
+  - destruct (j_filter c =? 1); (eapply phase_ok_weaken; [|first [apply live_phase_fin_ok | apply live_phase_ok]]); intros [].
   - match goal with |- phase_ok _ _ (let '(_, _) := ?X in _) _ => destruct X as [fevs rr] end.
-    eapply phase_ok_weaken; [|apply file_phase_ok].
+    assert (Hw : forall r0, phase_ok c [] r0 (match rr with
+                | RsOk => if negb (j_stop c =? 0) && ((j_stop c / j_bundle c + 1) * j_bundle c <=? merged_end) then JStop else JNil
+                | RsResolveErr => JInvalidArg | RsNotImplemented => JOther | RsFuel => JFuel end = JStop) ->
+              phase_ok c [] r0 (marker c merged_end)); [|destruct (j_filter c =? 1); apply Hw; [apply file_phase_fin_ok | apply file_phase_ok]].
+    intros r0. apply phase_ok_weaken.
     intros H. destruct rr; try discriminate.
     destruct (negb (j_stop c =? 0)) eqn:H0; cbn [andb] in H; [|discriminate].
     destruct ((j_stop c / j_bundle c + 1) * j_bundle c <=? merged_end) eqn:Hm; [|discriminate].
@@ -286,6 +334,29 @@ Proof.
     + destruct stop; [discriminate | apply IH].
 Qed.
 
+Lemma live_phase_fin_not_invalid c : forall fuel w lf queue count ps out,
+  snd (live_phase_fin fuel c w lf queue count ps out) <> JInvalidArg.
+Proof.
+  induction fuel as [|f IH]; intros w lf queue count ps out; cbn [live_phase_fin]; [discriminate|].
+  destruct queue as [|e q].
+  - destruct (w_rest w); [discriminate|]. destruct (push_one c w) as [w' evs]. apply IH.
+  - destruct (chain_fin c lf e) as [[deliver stop] lf']. destruct deliver.
+    + destruct (apply_pauses c (count + 1) ps w) as [[ps' w'] evs]. destruct stop; [discriminate | apply IH].
+    + destruct stop; [discriminate | apply IH].
+Qed.
+
+Lemma file_phase_fin_invalid c fuel fend : forall fevs w lf lowest count ps out,
+  snd (file_phase_fin fuel c w lf lowest fevs fend count ps out) = JInvalidArg -> fend = JInvalidArg.
+Proof.
+  induction fevs as [|e rest IH]; intros w lf lowest count ps out; cbn [file_phase_fin]; [auto|].
+  cbv zeta.
+  match goal with |- snd (match ?X with Some _ => _ | None => _ end) = _ -> _ => destruct X as [burst|] end.
+  - intros H. destruct (live_phase_fin_not_invalid _ _ _ _ _ _ _ _ H).
+  - destruct (chain_fin c lf e) as [[deliver stop] lf']. destruct deliver.
+    + destruct (apply_pauses c (count + 1) ps w) as [[ps' w'] evs]. destruct stop; [discriminate | apply IH].
+    + destruct stop; [discriminate | apply IH].
+Qed.
+
 (* the cursor resolver: a resolution error comes before any event (from-cursor mode) and never in
    through-cursor mode; once resolved there is no error at all *)
 Lemma resolver_run_resolved c pass forked : forall l s evs r,
@@ -332,14 +403,17 @@ Proof.
   match goal with |- (if ?X then _ else _) = _ -> _ => destruct X end; [intros H; inversion H; reflexivity|].
   match goal with |- (if ?X then _ else _) = _ -> _ => destruct X end; [intros H; inversion H; reflexivity|].
   destruct (live_try c (w_hub w) _) as [burst| | |].
-  - intros H. exfalso. eapply live_phase_not_invalid. rewrite H. reflexivity.
+  - destruct (j_filter c =? 1); intros H; exfalso; [eapply live_phase_fin_not_invalid | eapply live_phase_not_invalid]; rewrite H; reflexivity.
   - match goal with |- (let '(_, _) := ?X in _) = _ -> _ => destruct X as [fevs rr] eqn:Hf end.
-    intros H. assert (Hfe : snd (file_phase _ c w (hub_lowest (w_hub w)) fevs
-               (match rr with
+    intros H.
+    set (fe := match rr with
                 | RsOk => if negb (j_stop c =? 0) && ((j_stop c / j_bundle c + 1) * j_bundle c <=? merged_end) then JStop else JNil
-                | RsResolveErr => JInvalidArg | RsNotImplemented => JOther | RsFuel => JFuel end) 0 ps []) = JInvalidArg)
-      by (rewrite H; reflexivity).
-    apply file_phase_invalid in Hfe.
+                | RsResolveErr => JInvalidArg | RsNotImplemented => JOther | RsFuel => JFuel end) in *.
+    assert (Hfe : fe = JInvalidArg).
+    { destruct (j_filter c =? 1).
+      - eapply file_phase_fin_invalid. rewrite H. reflexivity.
+      - eapply file_phase_invalid. rewrite H. reflexivity. }
+    unfold fe in Hfe.
     destruct rr; try discriminate; [destruct (negb (j_stop c =? 0) && _); discriminate|].
     (* a resolution error: from-cursor mode, before any event *)
     assert (fevs = []).
@@ -347,7 +421,7 @@ Proof.
       destruct (j_mode c =? 1).
       - unfold from_cursor_run in Hf. apply resolver_run_error in Hf; [tauto | reflexivity].
       - unfold through_cursor_run in Hf. apply resolver_run_error in Hf; [destruct Hf; discriminate | reflexivity]. }
-    subst fevs. cbn [file_phase] in H. inversion H; reflexivity.
+    subst fevs. destruct (j_filter c =? 1); cbn [file_phase file_phase_fin] in H; inversion H; reflexivity.
   - intros H; inversion H.
   - intros H; inversion H.
 Qed.
